@@ -18,7 +18,8 @@ def run(prop, tier, seed, replay=None):
         states, transitions, runs = rc.model_check(work, "MCApi", ["MC_C20.cfg"] if q else ["MC_C20.cfg", "MC_C20_deep.cfg"])
         if prop == "C18":
             s2, t2, r2 = rc.model_check(work, "DagStore", ["MC_C18.cfg"], workers=2)
-            states, transitions, runs = states + s2, transitions + t2, runs + r2
+            s3, t3, r3 = rc.model_check(work, "DagStoreConc", ["MC_C18_conc_unique.cfg"], workers=2)
+            states, transitions, runs = states + s2 + s3, transitions + t2 + t3, runs + r2 + r3
         scenarios = []
         if replay:
             rp = json.load(open(replay))["replay"]
@@ -108,6 +109,35 @@ def run(prop, tier, seed, replay=None):
                     rep.violation({"clause": c, "op": "save-crash", "sys": r["sys"].split(" ")[0], "torn": r["torn"] >= 0},
                                   {"kill": {k: r[k] for k in ("old", "new", "k", "sys", "torn")}, "content": r["content"], "dir": r["dir"]})
             rep.cov["save_kill_points"] = consumed2
+            # two saves of the same definition at the same moment (DagStoreConc.tla): every interleaving at the gate of the
+            # verif build, and a free-running pair of savers with a reader
+            import itertools
+            evs = [("write", "a"), ("rename", "a"), ("write", "b"), ("rename", "b")]
+            pairs = []
+            for perm in itertools.permutations(evs):
+                if perm.index(evs[0]) < perm.index(evs[1]) and perm.index(evs[2]) < perm.index(evs[3]):
+                    pairs.append({"scen": 900000 + len(pairs), "src": "all interleavings", "steps": [{"a": a, "r": r} for a, r in perm]})
+            pf = os.path.join(work, "pair.jsonl")
+            with open(pf, "w") as f:
+                for s in pairs:
+                    f.write(json.dumps(s) + "\n")
+            ptrace = os.path.join(work, "pair.ndjson")
+            rc.run_vh(vh, ["savepair", "-scenarios", pf, "-stress", "1500" if q else "10000", "-out", ptrace], env=dict(vp.GOENV, TMPDIR=work), timeout=1200)
+            pd = os.path.join(work, "pairobs")
+            os.makedirs(pd)
+            pv, pcons, _ = vp.observe(pd, "DagStoreConcTrace", ptrace)
+            stress = [json.loads(l) for l in open(ptrace) if '"ev":"Stress"' in l]
+            for v in pv:
+                if "INFRA" in v["viol"]:
+                    raise vp.Infra("savepair rig: %s" % json.dumps(v["rec"]))
+                for c in v["viol"]:
+                    if c.startswith("DRIFT"):
+                        rep.drift.append("spec=DagStoreConc %s rec=%s" % (c, json.dumps(v["rec"], sort_keys=True)))
+                    else:
+                        rep.violation({"clause": c, "op": "save-pair", "stress": v["rec"].get("ev") == "Stress"},
+                                      {"pair_scenario": next((s for s in pairs if s["scen"] == v["scen"]), None), "first_mismatch": v["rec"]})
+            rep.cov["save_pair"] = {"interleavings": len(pairs), "gate_events_validated": pcons, "free_running": stress[0] if stress else None}
+            consumed2 += pcons
         some = list(by_id.values())
         samples = [some[0], some[-1]] if some else []
         rep.cov.update({"states": states, "transitions": transitions, "model_checking_runs": runs,
@@ -118,7 +148,7 @@ def run(prop, tier, seed, replay=None):
                                 "mark-success / mark-failed (right / wrong / missing request id and step, runs of other DAGs), save (valid texts with the same steps, with a step inserted in front and with the steps reordered; invalid; empty), mark on a run recorded under an earlier text, rename (free / taken / same / empty name), "
                                 "create, delete, unknown and missing action, interleaved with environment events that make a DAG running (a live status socket), finished, failed, canceled or crashed; "
                                 "from TLC simulation of MCApi and a weighted seeded generator; after every action the whole abstract state is read back from disk; "
-                                "evaluations = API actions judged (+ kill points of a save for C18); distinct = scenarios with at least 5 operations",
+                                "evaluations = API actions judged (+ for C18: kill points of a save, each followed by a further save; the 6 interleavings of two simultaneous saves at the gate of the verif build and a free-running pair of savers with a reader); distinct = scenarios with at least 5 operations",
                         "samples": samples, "exhaustive": False})
         rep.assumptions += ["the executable spawned by the client is a stub that records its arguments; 'parameters unchanged' is checked on the argument vector after the CLI's quote stripping",
                             "'running' is a live status socket served by the rig at the DAG's real socket address",
